@@ -1758,7 +1758,7 @@ def read_set_rule(ctx, rule: str, records):
     seen = set()
     for where, o in records:
         for e in o.path.effects:
-            if e[0] == "getattr" and (e[1] == "m" or e[1].startswith("M[")):
+            if e[0] == "getattr" and (e[1] in ("m", "Mlast", "Mprev") or e[1].startswith("M[")):  # (the module linked last is a module)
                 key = (where, e[2])
                 if key in seen:
                     continue
@@ -1766,7 +1766,7 @@ def read_set_rule(ctx, rule: str, records):
                 r.ob(rule + ".module-reads", "%s#module.%s" % (where, e[2]), e[2] in allowed,
                      "a module is read through `.%s` on the assembly path; only the overhang accessors, the target and the record (id/citations) may be read" % e[2], where)
         for tag, v in o.path.choices:
-            if tag.startswith("arith ") and re.search(r"(?<![A-Za-z:])n:(m\b|M\[)|len:F:(m\b|M\[)", tag):
+            if tag.startswith("arith ") and re.search(r"(?<![A-Za-z:])n:(m\b|M\[|Mlast\b|Mprev\b)|len:F:(m\b|M\[|Mlast\b|Mprev\b)", tag):
                 key = (where, tag)
                 if key in seen:
                     continue
